@@ -66,7 +66,9 @@ func c04Leaf(name string, sym bool) any {
 		if sym {
 			return vh.Bytes(name+"s", 2)
 		}
-		return []string{"", "a\"b\\c", "héllo\n\t "}[vh.Choose(name+"t", 3)]
+		// strings whose JSON text needs care: quotes, backslashes, control characters, non-ASCII,
+		// HTML-sensitive characters, and text that merely LOOKS like an escape sequence
+		return []string{"a\"b\\c é\n", "<\\u003c&\\u0026>\\n", "\u2028\u0001\\"}[vh.Choose(name+"t", 3)]
 	case 2:
 		if sym {
 			return vh.Bool(name + "b")
